@@ -75,7 +75,8 @@ def _dump_reader(r, stats, vectors, columns, keyfield):
                                                             f32(ti.max_weight())]
     d["postings"] = post
     # concrete names of dynamic (glob) fields are not listed by the schema: take them from the index
-    dyn = sorted(f for f in r.indexed_field_names() if f in schema and f not in schema.names())
+    # (from the postings of live documents: names that only deleted documents used are layout, not content)
+    dyn = sorted(f for f in post if f in schema and f not in schema.names())
     fobjs = list(schema.items()) + [(f, schema[f]) for f in dyn]
     if stats:
         d["term_stats"] = tstats
